@@ -1,3 +1,44 @@
 From Coq Require Import ExtrOcamlBasic.
-From PTK Require Import Lib.Sx Model.C19_Run.
+From Coq Require Import PrimFloat.
+From PTK Require Import Lib.Sx Model.C19_Float Model.C19_Run.
+(* Primitive binary64 floats -> OCaml's native float (IEEE-754 double, the same
+   arithmetic).  Self-contained realisations (the model binary is linked
+   without Coq's kernel library): float literals and the two int<->float
+   conversions are named constants of Model/C19_Float.v realised here; the
+   in-Coq vm_compute cross-check evaluates the Coq definitions on the same
+   cases. *)
+Extract Inlined Constant PrimFloat.float => "float".
+Extract Inlined Constant PrimFloat.add => "(+.)".
+Extract Inlined Constant PrimFloat.sub => "(-.)".
+Extract Inlined Constant PrimFloat.mul => "( *. )".
+Extract Inlined Constant PrimFloat.div => "(/.)".
+Extract Inlined Constant PrimFloat.opp => "(~-.)".
+Extract Inlined Constant PrimFloat.abs => "abs_float".
+Extract Inlined Constant PrimFloat.ltb => "(fun (x : float) (y : float) -> x < y)".
+Extract Inlined Constant PrimFloat.leb => "(fun (x : float) (y : float) -> x <= y)".
+Extract Inlined Constant PrimFloat.eqb => "(fun (x : float) (y : float) -> x = y)".
+Extract Inlined Constant PrimFloat.is_nan => "(fun (x : float) -> x <> x)".
+Extract Inlined Constant PrimFloat.is_infinity => "(fun (x : float) -> abs_float x = infinity)".
+Extract Inlined Constant PrimFloat.nan => "nan".
+Extract Constant F0 => "0.".
+Extract Constant F05 => "0.5".
+Extract Constant F1 => "1.".
+Extract Constant F2 => "2.".
+Extract Constant F3 => "3.".
+Extract Constant F4 => "4.".
+Extract Constant F6 => "6.".
+Extract Constant F255 => "255.".
+Extract Constant F512 => "512.".
+Extract Constant F1000 => "1000.".
+Extract Constant F2p52 => "4503599627370496.".
+Extract Constant F2p53 => "9007199254740992.".
+Extract Constant FNAN => "nan".
+Extract Constant f_of_Z =>
+  "(fun z -> let rec ip = function XH -> 1 | XO p -> 2 * ip p | XI p -> 2 * ip p + 1 in
+             match z with Z0 -> 0. | Zpos p -> float_of_int (ip p) | Zneg _ -> nan)".
+Extract Constant f_trunc =>
+  "(fun x -> if x <> x || abs_float x >= 9007199254740992. then None else
+             let n = int_of_float x in
+             let rec pi n = if n = 1 then XH else if n land 1 = 0 then XO (pi (n lsr 1)) else XI (pi (n lsr 1)) in
+             Some (if n = 0 then Z0 else if n > 0 then Zpos (pi n) else Zneg (pi (- n))))".
 Extraction "c19_model.ml" run_C19.
